@@ -537,13 +537,14 @@ func writeEvidence(all []report, t0 time.Time, baseSeed, start uint64, W int, B 
 		"probes":                   probes,
 		"config_cells":             cells,
 		"abstract_states":          len(states),
-		"inconclusive_runs":        inconclusive,
 		"determinism_runs_checked": detChecked,
 		"determinism_processes":    detProcs,
 		"known_findings_seen":      known,
-		"runs_with_new_violation":  nViolRuns,
-		"real_components":          realComponents,
-		"stubbed_components":       stubComponents,
+		// small outcome counters (they fluctuate with which seeds fit into the budget) are kept apart from
+		// the measures of work above
+		"outcomes":           map[string]any{"inconclusive_runs": inconclusive, "runs_with_new_violation": nViolRuns},
+		"real_components":    realComponents,
+		"stubbed_components": stubComponents,
 	}
 	ev := map[string]any{
 		"property_id": *propID,
